@@ -3110,6 +3110,7 @@ class SEVM:
 
         step_id = 0
         step_interval_mask = PULSE_INTERVAL - 1
+        depth_limit_warned = False
 
         # make sure the initial instruction has been fetched
         if not ex0.insn:
@@ -3165,10 +3166,13 @@ class SEVM:
                     profiler.increment(opcode, extra)
 
                 if max_depth and step_id > max_depth:
-                    warn(
-                        f"{self.fun_info.sig}: incomplete execution due to the specified limit: --depth {max_depth}",
-                        allow_duplicate=False,
-                    )
+                    # warn once per run (not once per process: another run of a function
+                    # with the same signature must be reported too)
+                    if not depth_limit_warned:
+                        depth_limit_warned = True
+                        warn(
+                            f"{self.fun_info.sig}: incomplete execution due to the specified limit: --depth {max_depth}"
+                        )
                     continue
 
                 if print_steps:
